@@ -21,6 +21,12 @@ ASSUMPTIONS = [
     "that passes the contextual check and whose carried block's parent is in the trees or is supplied by a payload "
     "handled EARLIER in the same pass (VbkBlocks, then VTBs, then ATVs, each by ascending height of the carried "
     "block), a VTB's BTC context being present before the pass",
+    "already-on-chain payloads: a payload the active ALT chain contains (payloads / finalized index, independent of "
+    "the library's own contextual check) must not be accepted as VALID and must be forgotten by cleanUp at every age; "
+    "for a VTB this is demanded only while its containing VBK block is on the VBK best chain of the instance - on a "
+    "losing VBK fork the VTB is un-applied in the VBK tree and the unchanged library accepts the re-announcement "
+    "(counted as `onchain-vtb-on-losing-vbk-fork`; generatePopData's stateful duplicate test still keeps it out of "
+    "the result)",
     "memory safety is observed by ASan/UBSan (-O0 build of the library) on the generated histories, not proved",
 ]
 META = {
@@ -53,10 +59,11 @@ META = {
 }
 
 CFGS = [
-    dict(alt_ki=5, alt_settle=8, vbk_oldwin=4, alt_fd=100),
+    dict(alt_ki=5, alt_settle=8, vbk_oldwin=4, alt_fd=100, vbk_settle=8),
     dict(alt_ki=4, alt_settle=6, vbk_oldwin=3, alt_fd=100, vbk_maxreorg=6),
-    dict(alt_ki=5, alt_settle=50, vbk_oldwin=12000),
+    dict(alt_ki=5, alt_settle=50, vbk_oldwin=12000, vbk_settle=6),
     dict(alt_ki=3, alt_settle=5, vbk_oldwin=6, alt_maxvbk=3, alt_maxatv=2, alt_maxvtb=1),
+    dict(alt_ki=5, alt_settle=12, vbk_oldwin=12000, vbk_settle=12),
 ]
 
 
